@@ -163,6 +163,18 @@ KINDS += [  # statement lists whose elements may be `if` statements: only an If'
          (lambda e: 'async def f():\n    async for i in j:\n        b' + ('\n    else:\n' + '\n'.join('        ' + x for x in e) if e else '')),
          P + (('body', 0),), 'orelse', IFS, ['if x0: pass', 'x1'], lambda e: '\n'.join(e)),
 ]
+def _kw(word):
+    return lambda e: word + (' ' if e and (e[0][0].isalnum() or e[0][0] == '_') else '') + ', '.join(e)
+
+
+TIGHT = ['[e0][0]', '(e1).a', '[e2][0]', '(e3).a']  # elements that can stand directly behind a keyword
+KINDS += [  # the container follows a keyword without a blank: an element put at the front has to stay apart from the keyword
+    Kind('Delete.targets(tight)', _kw('del'), P, 'targets', TIGHT, X2, _csv, 1),
+    Kind('Tuple.elts(return tight)', lambda e: 'def f():\n    ' + _kw('return')(e), P + (('body', 0), ('value', None)), 'elts',
+         ['-e0', '[e1]', '-e2', '(e3)'], X2, _csv, 2),
+    Kind('Tuple.elts(in tight)', lambda e: 'for i in' + (' ' if not e or e[0][0].isalnum() else '') + (', '.join(e) if e else '()') + ': pass', P + (('iter', None),), 'elts',
+         ['-e0', '[e1]', '-e2', '(e3)'], X2, _csv, 2),
+]
 KIND = {k.name: k for k in KINDS}
 
 
